@@ -65,6 +65,7 @@ type c15Plan struct {
 	SlowChunk   int
 	SlowSleepMs int
 	OneTrack    bool // rtsp / wsrtsp: SETUP only the first track of an audio+video stream
+	Rtcp        bool // rtsp: while stalled the player keeps sending RTCP receiver reports on its interleaved RTCP channel (what it sends is not what lal managed to write to it)
 	Chatty      bool // rtmp: while stalled the player sends ping requests and a createStream command (replies are queued behind the media)
 }
 
@@ -463,7 +464,24 @@ func (cl *c15Client) run(frame *int64) {
 	atomic.StoreInt64(&cl.stalledFrame, atomic.LoadInt64(frame))
 	switch p.Mode {
 	case "stall":
-		<-cl.quit
+		if p.Rtcp && p.Kind == "rtsp" {
+			rr := []byte{'$', 1, 0, 8, 0x80, 0xc9, 0x00, 0x01, 0x12, 0x34, 0x56, 0x78}
+		rtcp:
+			for {
+				select {
+				case <-cl.quit:
+					break rtcp
+				case <-time.After(300 * time.Millisecond):
+					cl.conn.SetWriteDeadline(time.Now().Add(time.Second))
+					if _, err := cl.conn.Write(rr); err != nil {
+						<-cl.quit
+						break rtcp
+					}
+				}
+			}
+		} else {
+			<-cl.quit
+		}
 	case "stall-resume":
 		if p.Chatty && cl.rc != nil {
 			// well into the stall (lal's writer is blocked by now) the player talks: two ping requests and
@@ -857,6 +875,8 @@ func c15Run(c *fw.Ctx, i int) {
 		for _, kd := range []string{"rtsp", "wsrtsp"} {
 			plans = append(plans, c15Plan{Kind: kd, Mode: "stall", Stream: "a", StallAt: []int{1, 5000, 60000}[r.Intn(3)], OneTrack: true})
 		}
+		// … and one that stops reading but goes on sending RTCP receiver reports
+		plans = append(plans, c15Plan{Kind: "rtsp", Mode: "stall", Stream: "a", StallAt: []int{5000, 60000}[r.Intn(2)], Rtcp: true})
 	}
 	// RTMP players that talk while stalled (ping requests, createStream): lal's replies wait in the
 	// queue behind the media; when the player reads again they must be whole and be the right ones
